@@ -44,6 +44,11 @@ func main() {
 	// unbounded recursion in the system under test must end in Go's fatal "stack overflow"
 	// within a second, not after growing a 1 GB stack
 	debug.SetMaxStack(16 << 20)
+	// The collector is switched off while a run is in progress (sync.Pool determinism); a run that
+	// produces gigabytes of garbage (an xpath evaluation the library aborts only after a million
+	// steps, times records, times declarations) must still not run into the orchestrator's memory
+	// guard, which is there for unbounded growth: above this limit the collector runs regardless.
+	debug.SetMemoryLimit(1 << 30)
 	fs := flag.NewFlagSet(cmd, flag.ExitOnError)
 	prop := fs.String("prop", "", "property id")
 	tier := fs.String("tier", "quick", "quick|thorough")
